@@ -13,3 +13,4 @@ from vt.contracts import dgroup  # noqa: F401,E402  (D(R1) D(R2) = D(R1 R2): rep
 from vt.contracts import amp_sym  # noqa: F401,E402  (cal_angle/mass_leaves_frame_independent)
 from vt.contracts import euler  # noqa: F401,E402  (helicity-frame Euler angles incl. the third angle of angle_zx_zx)
 from vt.contracts import dfun_sym  # noqa: F401,E402  (D unitarity, alignment-matrix selection by helicity value)
+from vt.contracts import align_sym  # noqa: F401,E402  (frame bookkeeping of cal_angle.py: chain boosts, frame matrices)
